@@ -285,7 +285,7 @@ def main():
     else:
         scns = load_corpus()
         for fam, nq, nt in families.PLAN[pid]:
-            n = nq if tier == "quick" else nt
+            n = nq * int(os.environ.get("VERIF_QUICK_SCALE", "3")) if tier == "quick" else nt
             scns += families.generate(seed, fam, n, prefix="%s-%s" % (pid, fam))
     # unique ids
     seen = set()
